@@ -343,6 +343,7 @@ def layout_data_written(ck, L):
                 continue
             n_attr += 1
             conds = []
+            guards = []
             ok = True
             why = []
             for a in H.ancestors(fn, c):
@@ -361,6 +362,7 @@ def layout_data_written(ck, L):
                     fp = field_path(cd['e'])
                     if some and fp:
                         conds.append('%s is Some' % fp)
+                        guards.append(('bound', {b['hid'] for b in H.pat_bindings(cd['pat'])}, fp))
                         continue
                     sc = H.strip_refs(cd['e'])
                     if some and sc.get('k') in ('Call', 'MCall'):
@@ -371,6 +373,7 @@ def layout_data_written(ck, L):
                             ok2, why2 = none_only_when_empty(f2, idx)
                             if ok2:
                                 conds.append('%s(%s) is Some, %s' % (short(f2['path']), field_path(args[idx]), why2))
+                                guards.append(('bound', {b['hid'] for b in H.pat_bindings(cd['pat'])}, field_path(args[idx])))
                                 continue
                             why.append('%s(): %s' % (short(f2['path']), why2))
                     ok = False
@@ -382,9 +385,19 @@ def layout_data_written(ck, L):
                     neg, x = True, H.strip_refs(x['e'])
                 if x.get('k') == 'MCall' and x.get('m') == 'is_empty' and field_path(x['recv']) and (neg == in_then):
                     conds.append('%s is not empty' % field_path(x['recv']))
+                    guards.append(('field', None, field_path(x['recv'])))
                     continue
                 ok = False
                 why.append('guard `%s`' % pp(cd, maxlen=70))
+            # the data whose presence decides is the data that is written
+            val = tup['es'][1] if len(tup['es']) > 1 else None
+            if val is not None:
+                vfields = {field_path(x) for x in walk(val) if x.get('k') == 'Field'} - {None}
+                vlocals = {x.get('hid') for x in walk(val) if x.get('k') == 'Path' and x.get('res') == 'local'}
+                for kind, hids, fp in guards:
+                    if (kind == 'field' and fp not in vfields) or (kind == 'bound' and not (hids & vlocals) and fp not in vfields):
+                        ok = False
+                        why.append('the presence test looks at %s, the value written is made of %s' % (fp, sorted(vfields) or 'something else'))
             # the value is made of all the data: no narrowing adaptor, and the formatter it goes through keeps every element
             val = tup['es'][1] if len(tup['es']) > 1 else None
             if val is not None:
@@ -637,6 +650,23 @@ def run(ck):
                         if not used and not tests and not nonediag.pushes_in(L, arm['body']):
                             bad.append(pt)
                 ck.ob('R4.1u', key, not bad, L.loc(c), 'every Some(..) arm uses the value or pushes a diagnostic' if not bad else 'Some arm(s) %s drop the value silently' % bad, fn=fn['path'])
+            elif pk == 'Tup' and (pm.get(id(par)) or {}).get('k') == 'Match' and pm[id(par)].get('e') is par:
+                # several results matched together: in every arm this component is absent (None), used, decided on, or diagnosed
+                slot = next(j for j, x in enumerate(par['es']) if x is node)
+                bad = []
+                for arm in pm[id(par)]['arms']:
+                    alts = arm['pat']['alts'] if arm['pat'].get('k') == 'POr' else [arm['pat']]
+                    for alt in alts:
+                        comp = alt['subs'][slot] if alt.get('k') == 'PTup' and slot < len(alt.get('subs', [])) else alt
+                        if comp.get('k') == 'PPath' and (comp.get('def') or '').endswith('Option::None'):
+                            continue
+                        bs_ = H.pat_bindings(comp)
+                        used = [b for b in bs_ if any(x.get('k') == 'Path' and x.get('hid') == b['hid'] for x in walk(arm['body']))]
+                        tests = any(x.get('k') in ('PLit', 'PRange') for x in walk(comp))
+                        if not used and not tests and not nonediag.pushes_in(L, arm['body']):
+                            bad.append('%s in arm %s' % (pp(comp, maxlen=30), pp(alt, maxlen=50)))
+                ck.ob('R4.1u', key, not bad, L.loc(c), 'in every arm of the joint match the value is absent, used or diagnosed' if not bad else
+                      'the joint match has arm(s) where a value that may be present is dropped silently: %s' % bad, fn=fn['path'])
             elif pk == 'LetCond' and par.get('e') is node:
                 iff = pm.get(id(par))
                 bs_ = H.pat_bindings(par['pat'])
